@@ -4,7 +4,7 @@
    schema.ParseWithSpecialTableName / getOrParse; a state is reachable by ANY list of goroutine
    ids (any interleaving), for any number of goroutines, any programs of Parse calls and any
    relation graph [cfg] (acyclic or cyclic, with or without malformed relations). *)
-From Verif Require Import Base C07_Model C07_Proofs C07_Proofs4 C07_Proofs5 C07_Proofs6 C07_Proofs7.
+From Verif Require Import Base C07_Model C07_Proofs C07_Proofs4 C07_Proofs5 C07_Proofs6 C07_Proofs7 C07_Patch.
 
 (* Every return of a public Parse(T) happens after close(initialized) of the schema it returns;
    that schema is of type T and, unless it carries an error, all relations of T are installed. *)
@@ -109,6 +109,34 @@ Proof.
 Qed.
 Print Assumptions c07_no_hazard_warm_partial.
 
+(* ---- the proposed fix (one parse mutex per cacheStore, C07_Patch.pstep), at model level ---- *)
+(* every run with the lock is a run of the original protocol (parse_waits, single_winner apply) *)
+Theorem c07_patched_runs_are_runs : forall cfg progs sched ps,
+  prun cfg (pinitial progs) sched = Some ps ->
+  exists sched', run cfg (initial progs) sched' = Some (p_st ps).
+Proof. intros cfg progs sched ps H. exact (prun_run cfg sched (pinitial progs) ps H). Qed.
+Print Assumptions c07_patched_runs_are_runs.
+
+(* with the lock the hazard is unreachable: any goroutines, any relation graph, any schedule *)
+Theorem c07_patched_no_hazard : forall cfg progs sched ps,
+  prun cfg (pinitial progs) sched = Some ps -> hazard (p_st ps) = false.
+Proof.
+  intros cfg progs sched ps H.
+  exact (phazard cfg sched (pinitial progs) ps (inv_initial cfg progs) (Q_initial progs) eq_refl H).
+Qed.
+Print Assumptions c07_patched_no_hazard.
+
+(* and the lock introduces no deadlock *)
+Theorem c07_patched_no_deadlock : forall cfg progs sched ps,
+  prun cfg (pinitial progs) sched = Some ps ->
+  all_finished (p_st ps) = true \/ psome_enabled cfg ps = true.
+Proof.
+  intros cfg progs sched ps H.
+  destruct (prun_inv cfg sched (pinitial progs) ps (inv_initial cfg progs) (Q_initial progs) H) as [I Hq].
+  now apply pno_deadlock.
+Qed.
+Print Assumptions c07_patched_no_deadlock.
+
 (* non-vacuity: the cyclic graph A<->B<->C, two goroutines, a complete run *)
 Example c07_instance :
   exists st, run [[mk_rel 1 true]; [mk_rel 0 true; mk_rel 2 true]; [mk_rel 1 true]]
@@ -116,3 +144,12 @@ Example c07_instance :
                  [0;0;0;0;0;1;1;1;1;1;1;1;0;0;0;0;0;0;0;0;0;0;0;0;0;0;0;1;1;1;1;1] = Some st
              /\ all_finished st = true /\ hazard st = true.
 Proof. eexists. split; [vm_compute; reflexivity|split; vm_compute; reflexivity]. Qed.
+
+(* non-vacuity of the patched theorems: A<->B, goroutine 1 blocks on the lock goroutine 0 holds,
+   both complete, nobody saw an unfinished foreign schema *)
+Example c07_patched_instance :
+  exists ps, prun cfg_ab (pinitial [[0]; [1]])
+               [0;0;0;1;1;0;0;0;0;0;0;0;0;0;0;0;0;0;0;0;0;0;1;1;1;1;1;1] = Some ps
+             /\ all_finished (p_st ps) = true /\ hazard (p_st ps) = false /\ p_lock ps = None
+             /\ pstep cfg_ab (mk_p (p_st ps) (Some 0)) 1 = None.
+Proof. eexists. split; [vm_compute; reflexivity|repeat split; vm_compute; reflexivity]. Qed.
